@@ -167,6 +167,16 @@ add("C13", "model_checking",
     "floor/ceil steps inside rules would amplify; that amplification is not claimed to be absent.",
     "bounded exhaustive enumeration of timed names x units x dates with algebraic oracles and a differential oracle", "2/C13")
 
+add("C04", "model_checking",
+    "Per (population, date) and for EVERY node t of the default-target graph: the target sets {t}, {t} plus its derived-only companions (other "
+    "time units, automatic group sums), DEFAULT + {t} are simulated and compared bit for bit (value and dtype) with the run that requests all "
+    "nodes; the result must contain exactly the requested columns and one row per input row. Options are enumerated on top: debug on/off, "
+    "check_minimal_specification ignore / warn / raise (with exactly the root columns), seven kinds of unused extra columns, all nodes plus "
+    "all derived-only names, targets as string / duplicated / reversed.",
+    "'All subsets S, S'' is covered through the listed families of target sets (each compared with the all-nodes run), not the power set; "
+    "populations are two household sets.",
+    "exhaustive enumeration of target-set families per node x options with a differential oracle", "2/C04")
+
 NOT_APPLICABLE = []
 
 
